@@ -30,6 +30,21 @@ def _closure(ctx):
     return f, cfg_of(f)
 
 
+def _outer_alias(f, name):
+    """A free variable of closure f that the enclosing function binds exactly once, to one of its own parameters
+    (`proxy = trusted_proxy`): the parameter's name; otherwise the name itself."""
+    outer = f.parent
+    if outer is None or name in f.params:
+        return name
+    if any(isinstance(x, ast.Name) and x.id == name and isinstance(x.ctx, ast.Store) for x in ast.walk(f.node)):
+        return name
+    stores = [x for x in walk_own(outer.node) if isinstance(x, ast.Assign) and any(isinstance(t, ast.Name) and t.id == name for t0 in x.targets for t in ast.walk(t0))]
+    others = [x for x in ast.walk(outer.node) if isinstance(x, ast.Name) and x.id == name and isinstance(x.ctx, ast.Store)]
+    if len(stores) == 1 and len(others) == 1 and len(stores[0].targets) == 1 and isinstance(stores[0].targets[0], ast.Name) and isinstance(stores[0].value, ast.Name) and stores[0].value.id in outer.params:
+        return stores[0].value.id
+    return name
+
+
 def _peer_tests(f, g):
     """(branch nodes of the 'trusted' outcome, branch node of the final 'untrusted' outcome)"""
     env = f.params[0]
@@ -44,6 +59,7 @@ def _peer_tests(f, g):
         if b.kind != "branch" or not isinstance(b.ast, ast.Compare) or not isinstance(b.ast.ops[0], ast.Eq):
             continue
         l, r = norm(b.ast.left), norm(b.ast.comparators[0])
+        l, r = _outer_alias(f, l), _outer_alias(f, r)
         is_star = {l, r} == {"trusted_proxy", "'*'"}
         is_peer = peer is not None and {l, r} == {"trusted_proxy", peer} or {l, r} == {"trusted_proxy", "%s['REMOTE_ADDR']" % env}
         if is_star or is_peer:
@@ -78,26 +94,25 @@ def rule_r1(ctx):
             ctx.r.ok(rid, "the call is reachable only through a true peer test", f.loc(c.ast))
         else:
             ctx.r.violation(rid, key_of(f, None, "parse-before-peer-test"), "parse_proxy_headers can be reached without the peer test having succeeded", f.loc(c.ast))
-    # extra conditions that make an untrusted peer trusted (e.g. `or not trusted_proxy`)
-    ift = None
-    for st in ast.walk(f.node):
-        if isinstance(st, ast.If) and any(x is tests[0][0].ast for x in ast.walk(st.test)):
-            ift = st
-    if ift is not None:
-        atoms = []
-
-        def rec(e):
-            if isinstance(e, ast.BoolOp):
-                for v in e.values:
-                    rec(v)
-            else:
-                atoms.append(e)
-        rec(ift.test)
-        extra = [norm(a) for a in atoms if not any(a is b.ast for (b, _) in tests)]
-        if extra or (isinstance(ift.test, ast.BoolOp) and not isinstance(ift.test.op, ast.Or)):
-            ctx.r.violation(rid, key_of(f, None, "peer-test-widened"), "the trust decision also depends on %s" % (extra or "a non-disjunctive combination"), f.loc(ift))
-        else:
-            ctx.r.ok(rid, "the trust decision is exactly: trusted_proxy == '*' or peer == trusted_proxy", f.loc(ift))
+    # the decision is exactly "star or peer", however it is spelled: (a) no other test decides whether the call is reached -
+    # a branch from which the call is reachable while it is not from the opposite outcome; (b) once a star / peer test came
+    # out true nothing diverts from the call
+    test_asts = {id(b.ast) for (b, _) in tests}
+    widened = []
+    for b in g.nodes:
+        if b.kind != "branch" or id(b.ast) in test_asts:
+            continue
+        sib = [x for x in g.nodes if x.kind == "branch" and x.ast is b.ast and x.polarity != b.polarity]
+        for c in calls:
+            if c.id in g.reach(b, follow_exc=False) and sib and not any(c.id in g.reach(x, follow_exc=False) for x in sib):
+                widened.append(b)
+    narrowed = [b for b in tb for c in calls if g.path(b, g.exit, avoid=[c], follow_exc=False) is not None]
+    if widened:
+        ctx.r.violation(rid, key_of(f, None, "peer-test-widened"), "the trust decision also depends on %s" % sorted({"%s%s" % ("" if b.polarity else "not ", norm(b.ast)) for b in widened}), f.loc(widened[0].ast))
+    elif narrowed:
+        ctx.r.violation(rid, key_of(f, None, "peer-test-narrowed"), "a peer that passed the test `%s` can still be treated as untrusted" % norm(narrowed[0].ast), f.loc(narrowed[0].ast))
+    else:
+        ctx.r.ok(rid, "the trust decision is exactly: trusted_proxy == '*' or peer == trusted_proxy", f.loc(tests[0][0].ast))
 
 
 def _environ_effects(ctx, f, stmts_or_nodes, env):
@@ -219,10 +234,14 @@ def rule_r3(ctx):
         init = [m for m in defs if norm(m.ast.value) == "PROXY_HEADERS" and g.dominates(m, n)]
         peer, tests = _peer_tests(f, g)
         fb = [b for (b, k) in tests if not b.polarity and k == "peer"]
-        other = [m for m in defs if m not in init]
-        # on the untrusted path no other definition reaches the call
+        # on the untrusted path (every star / peer test came out false) the definition that reaches the call is PROXY_HEADERS
         tb = [b for (b, k) in tests if b.polarity]
-        bad = [m for m in other if fb and m.id in g.reach(g.entry, avoid=tb, follow_exc=False)]
+        un = g.reach(g.entry, avoid=tb, follow_exc=False)
+        last = [m for m in defs if m.id in un and g.path(m, n, avoid=[x for x in defs if x is not m] + tb, follow_exc=False) is not None]
+        init = [m for m in last if norm(m.ast.value) == "PROXY_HEADERS"]
+        bad = [m for m in last if m not in init]
+        if not fb or g.path(g.entry, n, avoid=defs + tb, follow_exc=False) is not None:
+            bad = bad or [n]
         if init and not bad:
             ctx.r.ok(rid, "for an untrusted peer the set passed to the clearing is PROXY_HEADERS", f.loc(n.ast))
         else:
@@ -276,13 +295,26 @@ def rule_r5(ctx, rid="C15.R5"):
         ctx.r.violation(rid, key_of(f, None, "not-installed"), "BaseWSGIServer.__init__ never installs proxy_headers_middleware", f.loc())
         return
     n, c = calls[0]
+    # installed iff trusted_proxy or clear_untrusted_proxy_headers - decided on the CFG, however the test is spelled:
+    # the call needs one of the two to be true, each of them being true makes the call inevitable, and no other test decides
+    atoms = ("adj.trusted_proxy", "adj.clear_untrusted_proxy_headers", "self.adj.trusted_proxy", "self.adj.clear_untrusted_proxy_headers")
+    tb = [b for b in g.nodes if b.kind == "branch" and b.polarity and dotted(b.ast) in atoms]
+    kinds = {dotted(b.ast).split(".")[-1] for b in tb}
+    needs = g.path(g.entry, n, avoid=tb, follow_exc=False) is None
+    inevitable = all(g.path(b, g.exit, avoid=[n], follow_exc=False) is None for b in tb)
+    others = []
+    for b in g.nodes:
+        if b.kind != "branch" or dotted(b.ast) in atoms:
+            continue
+        sib = [x for x in g.nodes if x.kind == "branch" and x.ast is b.ast and x.polarity != b.polarity]
+        if n.id in g.reach(b, follow_exc=False) and sib and not any(n.id in g.reach(x, follow_exc=False) for x in sib):
+            others.append(b)
     ift = None
     for st in ast.walk(f.node):
-        if isinstance(st, ast.If) and any(x is c for b in st.body for x in ast.walk(b)):
+        if isinstance(st, ast.If) and any(x is c for b in st.body + st.orelse for x in ast.walk(b)):
             ift = st
-    t = norm(ift.test).replace(" ", "") if ift is not None else ""
-    if t in ("adj.trusted_proxyoradj.clear_untrusted_proxy_headers", "adj.clear_untrusted_proxy_headersoradj.trusted_proxy"):
-        ctx.r.ok(rid, "installed iff trusted_proxy or clear_untrusted_proxy_headers", f.loc(ift))
+    if kinds == {"trusted_proxy", "clear_untrusted_proxy_headers"} and needs and inevitable and not others:
+        ctx.r.ok(rid, "installed iff trusted_proxy or clear_untrusted_proxy_headers", f.loc(ift) if ift is not None else f.loc(n.ast))
     else:
         ctx.r.violation(rid, key_of(f, None, "install-guard"), "the middleware is installed under `%s` (must be: adj.trusted_proxy or adj.clear_untrusted_proxy_headers)" % (norm(ift.test) if ift is not None else "<unconditional>"), f.loc(n.ast))
     want = {"trusted_proxy": "adj.trusted_proxy", "trusted_proxy_count": "adj.trusted_proxy_count", "trusted_proxy_headers": "adj.trusted_proxy_headers",
@@ -389,6 +421,8 @@ RULES = [rule_r1, rule_r2, rule_r3, rule_r4, rule_r5, rule_r6, rule_r7, rule_r8]
 from ..selftest import M, T, V  # noqa: E402
 
 selftest = [
+    M("trusted-proxy-normalised", "proxy_headers.py", "    def translate_proxy_headers(environ, start_response):\n        untrusted_headers = PROXY_HEADERS", "    if trusted_proxy and trusted_proxy != \"*\":\n        trusted_proxy = trusted_proxy.rsplit(\":\", 1)[0]\n\n    def translate_proxy_headers(environ, start_response):\n        untrusted_headers = PROXY_HEADERS", "R8"),
+    T("trusted-proxy-aliased", "proxy_headers.py", "    def translate_proxy_headers(environ, start_response):\n        untrusted_headers = PROXY_HEADERS\n        remote_peer = environ[\"REMOTE_ADDR\"]\n        if trusted_proxy == \"*\" or remote_peer == trusted_proxy:", "    proxy = trusted_proxy\n\n    def translate_proxy_headers(environ, start_response):\n        untrusted_headers = PROXY_HEADERS\n        remote_peer = environ[\"REMOTE_ADDR\"]\n        if proxy == \"*\" or remote_peer == proxy:"),
     M("parse-before-test", "proxy_headers.py", "        untrusted_headers = PROXY_HEADERS\n        remote_peer = environ[\"REMOTE_ADDR\"]\n        if trusted_proxy == \"*\" or remote_peer == trusted_proxy:", "        untrusted_headers = PROXY_HEADERS\n        remote_peer = environ[\"REMOTE_ADDR\"]\n        if True:", "R1"),
     M("trust-when-unset", "proxy_headers.py", "if trusted_proxy == \"*\" or remote_peer == trusted_proxy:", "if trusted_proxy == \"*\" or remote_peer == trusted_proxy or not trusted_proxy:", "R1"),
     M("peer-from-header", "proxy_headers.py", "remote_peer = environ[\"REMOTE_ADDR\"]", "remote_peer = environ.get(\"HTTP_X_REAL_IP\", environ[\"REMOTE_ADDR\"])", "R1"),
